@@ -99,6 +99,7 @@ def units(tier, variant):
     out.append(dict(kind='nsc', variant=variant))
     out.append(dict(kind='fuzzy-name', variant=variant))
     out.append(dict(kind='gcat', variant=variant))
+    out.append(dict(kind='curved-image', variant=variant))
     return out
 
 
@@ -120,7 +121,7 @@ def ref_material(glass, w, gcat=None):
     return float(np.ravel(AbbeMaterial(nd, vd).n(w))[0])
 
 
-def check_file(part, header, surf_rows, obj_disz, stop_k, encoding, det, cond, keep=None):
+def check_file(part, header, surf_rows, obj_disz, stop_k, encoding, det, cond, keep=None, image_row=None):
     """Write, load, compare. surf_rows: optical surfaces (file surfaces 1..N-1); object and image rows are added here."""
     from optiland.fileio import load_zemax_file
     from optiland.materials import AbbeMaterial, Material
@@ -129,7 +130,7 @@ def check_file(part, header, surf_rows, obj_disz, stop_k, encoding, det, cond, k
         rr = dict(r)
         rr['stop'] = (k == stop_k)
         rows.append(rr)
-    rows.append(dict(type='STANDARD', curv=0.0, disz=0.0))
+    rows.append(dict(image_row) if image_row else dict(type='STANDARD', curv=0.0, disz=0.0))
     txt = zmx.text(header, rows)
     fd, path = tempfile.mkstemp(suffix='.zmx', prefix='vmc_c20_')
     os.close(fd)
@@ -342,6 +343,20 @@ def run_fuzzy(part, unit):
     part.sample(dict(fuzzy=['N-BK', 'SF1', 'LAK']))
 
 
+def run_curved_image(part, unit):
+    """The last SURF of the file (the image surface) is a surface like the others: its curvature and conic are read."""
+    v = unit['variant']
+    A = alphabet(v)
+    H = base_header(v)
+    for img in (dict(type='STANDARD', curv=-1.0 / 50.0, disz=0.0, conic=-0.5), dict(type='STANDARD', curv=1.0 / 80.0, disz=0.0)):
+        for enc in ('utf-8', 'utf-16'):
+            part.states += 1
+            check_file(part, H, [A[0], A[1]], 'INFINITY', 0, enc, dict(word='curved-image', image=img, encoding=enc, variant=v), 'image-surface-with-curvature',
+                       image_row=img)
+    part.outcome('curved-image')
+    part.sample(dict(curved_image=True))
+
+
 def run_gcat(part, unit):
     """Exact catalogue names that exist under several vendors (or also as a crystal / a gas): the GCAT line says which one."""
     v = unit['variant']
@@ -360,6 +375,9 @@ def run_unit(unit):
     part = Part(unit)
     if unit['kind'] == 'gcat':
         run_gcat(part, unit)
+        return part
+    if unit['kind'] == 'curved-image':
+        run_curved_image(part, unit)
         return part
     dict(words=run_words, headers=run_headers, long=run_long, nsc=run_nsc)[unit['kind']](part, unit) if unit['kind'] != 'fuzzy-name' else run_fuzzy(part, unit)
     return part
